@@ -1701,3 +1701,92 @@ def remote_equals_direct(doc):
         return '; '.join(bad[:4]) or None
 
     return _run(main())
+
+
+# ---------------------------------------------------------------------------------------------------- C12
+def output_emission(doc):
+    """bounded search: declared / nested / dynamic / undeclared output ports x accepted / rejected values: out() stores exactly
+    the accepted ones, a rejected one raises ValueError and leaves the outputs untouched; success needs valid outputs"""
+    import copy
+    import plumpy
+
+    def crashing_validator(value, port):
+        return {}['missing']
+
+    def positive(value, port):
+        if value <= 0:
+            return 'must be positive'
+
+    class P(plumpy.Process):
+        script = []
+        seen = []
+
+        @classmethod
+        def define(cls, spec):
+            super().define(spec)
+            spec.output('x', valid_type=int, validator=positive)
+            spec.output('opt', valid_type=str, required=False)
+            spec.output('crashy', valid_type=int, validator=crashing_validator, required=False)
+            spec.output('ns.inner', valid_type=int, required=False)
+            spec.output_namespace('opt_ns', required=False)
+            spec.output('opt_ns.must', valid_type=int)
+            spec.output_namespace('dyn', valid_type=int, dynamic=True, required=False)
+
+        def run(self):
+            cls = type(self)
+            for path, value in cls.script:
+                before = copy.deepcopy(dict(self.outputs))
+                try:
+                    self.out(path, value)
+                    cls.seen.append((path, 'stored', copy.deepcopy(dict(self.outputs)), before))
+                except ValueError:
+                    cls.seen.append((path, 'ValueError', copy.deepcopy(dict(self.outputs)), before))
+                except KeyError:
+                    cls.seen.append((path, 'KeyError', copy.deepcopy(dict(self.outputs)), before))
+            return 'the-result'
+
+    def nested_set(d, path, value):
+        d = copy.deepcopy(d)
+        cur = d
+        parts = path.split('.')
+        for p_ in parts[:-1]:
+            cur = cur.setdefault(p_, {})
+        cur[parts[-1]] = value
+        return d
+
+    emissions = [('x', 3, True), ('x', -1, False), ('x', 'three', False), ('opt', 'a', True), ('opt', 5, False),
+                 ('ns.inner', 4, True), ('ns.inner', 'four', False), ('dyn.a', 1, True), ('dyn.a', 'one', False),
+                 ('dyn.sub.b', 2, True), ('dyn.sub.b', 'two', False), ('undeclared', 1, False), ('ns.other', 1, False),
+                 ('opt_ns.must', 'bad', False), ('opt_ns.deeper.leaf', 'bad', False), ('crashy', 5, 'KeyError')]
+
+    async def main():
+        bad = []
+        for path, value, accepted in emissions:
+            for with_x in (True, False):
+                P.script = ([('x', 1)] if with_x else []) + [(path, value)]
+                P.seen = []
+                proc = P()
+                await asyncio.wait_for(proc.step_until_terminated(), 10)
+                p_, verdict, after, before = P.seen[-1]
+                where = f"out({path!r}, {value!r}) (outputs before: {before})"
+                if accepted is True:
+                    if verdict != 'stored' or after != nested_set(before, path, value):
+                        bad.append(f'{where}: {verdict}, outputs {after}; expected stored at exactly that path')
+                elif accepted is False:
+                    if verdict != 'ValueError' or after != before:
+                        bad.append(f'{where}: {verdict}, outputs {after}; expected ValueError and unchanged outputs')
+                else:
+                    if verdict != accepted or after != before:
+                        bad.append(f"{where}: {verdict}, outputs {after}; expected the validator's {accepted} and unchanged outputs")
+                # success requires spec-conforming outputs; the result is preserved either way
+                want_ok = 'x' in proc.outputs
+                if proc.state.name != 'FINISHED' or proc.result() != 'the-result' or proc.is_successful != want_ok:
+                    bad.append(f'{where}: ended {proc.state.name}, successful={getattr(proc, "is_successful", None)}, outputs {dict(proc.outputs)}; '
+                               f'expected FINISHED with the result preserved and successful={want_ok}')
+                if proc.future().result() != proc.outputs:
+                    bad.append(f'{where}: the process future reports {proc.future().result()} instead of the outputs')
+            if len(bad) > 3:
+                break
+        return '; '.join(bad[:4]) or None
+
+    return _run(main())
